@@ -498,6 +498,63 @@ func widthClass(pls []polyline, w float64) string {
 	return "segments-longer-than-width"
 }
 
+// overlappingLines: two straight records of the given paths are collinear (within 4e-8 at both ends of the
+// common part) over more than 1e-6 - the same cause predicate as harness/c10 (C10-stroke-sweep-retraced-edge):
+// the stroke outline of such a path runs back over itself, the residue class on which the sweep still panics.
+func overlappingLines(ps ...*canvas.Path) bool {
+	type edge struct{ a, b hc.P2 }
+	var es []edge
+	for _, p := range ps {
+		ss, err := hc.Decode(p.Data())
+		if err != nil {
+			continue
+		}
+		for _, sg := range ss {
+			if (sg.Kind == 'L' || sg.Kind == 'Z') && sg.P0 != sg.End {
+				es = append(es, edge{sg.P0, sg.End})
+			}
+		}
+	}
+	for i, e := range es {
+		d := e.b.Sub(e.a)
+		l := d.Len()
+		u := d.Mul(1 / l)
+		for j, f := range es {
+			if i == j {
+				continue
+			}
+			ta, tb := f.a.Sub(e.a).Dot(u), f.b.Sub(e.a).Dot(u)
+			sa, sb := u.Cross(f.a.Sub(e.a)), u.Cross(f.b.Sub(e.a))
+			if ta > tb {
+				ta, tb, sa, sb = tb, ta, sb, sa
+			}
+			lo, hi := math.Max(ta, 0), math.Min(tb, l)
+			if hi-lo <= 1e-6 || tb <= ta {
+				continue
+			}
+			at := func(t float64) float64 { return sa + (sb-sa)*(t-ta)/(tb-ta) }
+			if math.Abs(at(lo)) < 4e-8 && math.Abs(at(hi)) < 4e-8 {
+				return true
+			}
+		}
+	}
+	return false
+}
+
+// retraceSuffix: "+retraces-own-edge" when one subpath goes back over an edge it has drawn,
+// "+overlapping-edges" when edges of different subpaths coincide, "" otherwise.
+func retraceSuffix(P *canvas.Path) string {
+	for _, sub := range P.Split() {
+		if overlappingLines(sub) {
+			return "+retraces-own-edge"
+		}
+	}
+	if overlappingLines(P) {
+		return "+overlapping-edges"
+	}
+	return ""
+}
+
 // flatCorpus: minimised past failures, always run first (regression inputs of repaired defects).
 var flatCorpus = []struct {
 	path  string
@@ -536,7 +593,7 @@ func regionFlat(c *hc.Ctx) {
 			Rf = R.Flatten(tol)
 		}); msg != "" {
 			first := strings.SplitN(msg, "\n", 2)[0]
-			c.Fail("panic:stroke:"+first, "Stroke panicked: "+first, map[string]any{"P": P.String(), "w": w, "style": st.name(), "limit": st.limit})
+			c.Fail("panic:stroke:"+first+retraceSuffix(P), "Stroke panicked: "+first, map[string]any{"P": P.String(), "w": w, "style": st.name(), "limit": st.limit})
 			continue
 		}
 		res, ok := resultContours(Rf)
